@@ -277,7 +277,10 @@ inline bool process_quiescent(pid_t self, std::string &desc) {
         char b[160];
         snprintf(b, sizeof b, "[thread team=%d state=%c last_site=%s]", tid, st, last >= 0 ? cocls::verif::site_names[last] : "-");
         desc += b;
-        if (st == 'S' || st == 'D') any_blocked = true;
+        // Only a thread the harness KNOWS (team member, coordinator, or a library thread that has passed a hook) counts as "blocked": a
+        // process whose team threads are ALL parked at the barrier is in a transient state by construction (the barrier is about to open),
+        // and the sleeping background threads of the sanitizer runtime would otherwise turn a starved barrier into a "hang".
+        if (st == 'S' || st == 'D') { if (tid != -2) any_blocked = true; }
         else ok = false;
     }
     closedir(d);
